@@ -29,11 +29,16 @@ FLAGS = list(itertools.product((True, False), (False, True), (False, True)))  # 
 VARIANTS = ("generic", "zeros", "loud_then_quiet", "outlier", "tiny", "strided", "reversed_view")
 
 
+FLOOR_VARIANTS = ("tiny+floor_1e-2", "zeros+floor_1e-9")
+FLOORS = {"tiny+floor_1e-2": 1e-2, "zeros+floor_1e-9": 1e-9}
+
+
 def _signal(seed, N, variant):
     """data alphabet: generic noise; all zeros (log floor); a loud passage followed by a quiet one
     and a single huge early sample (value-dependent shortcuts such as running sums lose precision
     there); tiny amplitudes around the log floor"""
     x = sig.signal(seed, N)
+    variant = variant.split("+")[0]
     if variant == "zeros":
         return np.zeros(N)
     if variant == "loud_then_quiet":
@@ -89,14 +94,26 @@ def _eval(pt, seed):
         tags = dict(bank=type(bank).__name__, real=bool(bank.is_real), style=style, kaldi=kaldi,
                     Dmod4=Dexp % 4, pad=pad, S_gt_L=bool(S > L))
         for N in sorted(set([0, L // 2, L // 2 + 1, L, 2 * L + 1, 3 * L + S] + ([S - S // 2 - 1, S - S // 2, S, 2 * S] if S > L else []))):
-            for variant in VARIANTS if N in (L, 3 * L + S) else ("generic",):
+            variants = VARIANTS if N in (L, 3 * L + S) else ("generic",)
+            if use_log and N == L:
+                variants = variants + FLOOR_VARIANTS
+            for variant in variants:
                 x = _signal(seed, N, variant)
                 evals += 1
-                r = computers.call(comp.compute_full, sig.rov(x))
+                floor = FLOORS.get(variant)
+                old_floor = config.LOG_FLOOR_VALUE
+                try:
+                    if floor is not None:
+                        # the documented package constant changes AFTER the computer was built
+                        config.LOG_FLOOR_VALUE = floor
+                    r = computers.call(comp.compute_full, sig.rov(x))
+                finally:
+                    config.LOG_FLOOR_VALUE = old_floor
                 case = dict(config=c, N=N, signal=variant)
                 try:
                     want = ref.compute_full(x, bank, L, S, Dexp, w, rstyle, kaldi, use_log,
-                                            use_power, energy, config.LOG_FLOOR_VALUE)
+                                            use_power, energy,
+                                            floor if floor is not None else config.LOG_FLOOR_VALUE)
                 except ref.OutOfRecipe as e:
                     obs.add("out_of_recipe")
                     continue
@@ -153,9 +170,17 @@ def _replay(case, seed):
         win = filters.GammaWindow() if rstyle == "causal" else filters.HannWindow()
     N = case["N"]
     x = _signal(seed, N, case["signal"])
+    floor = FLOORS.get(case["signal"])
     want = ref.compute_full(x, bank, L, S, D, win.get_impulse_response(L), rstyle, c["kaldi"],
-                            c["log"], c["power"], c["energy"], config.LOG_FLOOR_VALUE)
-    r = computers.call(comp.compute_full, sig.rov(x))
+                            c["log"], c["power"], c["energy"],
+                            floor if floor is not None else config.LOG_FLOOR_VALUE)
+    old_floor = config.LOG_FLOOR_VALUE
+    try:
+        if floor is not None:
+            config.LOG_FLOOR_VALUE = floor
+        r = computers.call(comp.compute_full, sig.rov(x))
+    finally:
+        config.LOG_FLOOR_VALUE = old_floor
     tags = dict(bank=type(bank).__name__, real=bool(bank.is_real), style=c["style"],
                 kaldi=c["kaldi"], Dmod4=D % 4, pad=c["pad"], S_gt_L=bool(S > L))
     if r[0] != "ok":
